@@ -972,3 +972,5 @@ V("c02-twin-coarse-slice-grids-in-defaultdict", "C02", "-", "dask_array/_blockwi
 ])
 V("c02-twin-blockwise-slice-broadcast-test-via-alias", "C02", "-", "dask_array/_blockwise.py",
   "                        if arg.shape[axis] == 1 and self.shape[out_pos] != 1 and idx != slice(None):\n", "                        arg_len = arg.shape[axis]\n                        if arg_len == 1 and self.shape[out_pos] != 1 and idx != slice(None):\n", twin=True)
+V("c02-blockwise-shuffle-shuffles-broadcast-axis", "C02", "R02.9", "dask_array/_blockwise.py",
+  "                if arr.shape[input_axis] == 1 and self.shape[axis] != 1:\n", "                if False:\n", expect="Blockwise._accept_shuffle")
